@@ -746,7 +746,8 @@ func (u *Unit) execReturn(st *State, x *ast.ReturnStmt) []*State {
 		return []*State{st}
 	}
 	st.retSite = u.retOrd[x]
-	u.returnAsserts(st, x)
+	// `at return N assert`: checked in the state in which the function returns, i.e. after the result expressions
+	// (including a call in `return f(...)`) have been evaluated
 	if len(x.Results) == 0 {
 		// named results
 		st.rets = nil
@@ -766,6 +767,7 @@ func (u *Unit) execReturn(st *State, x *ast.ReturnStmt) []*State {
 						if len(o.rets) == 1 && len(o.rets[0].Tuple) > 0 {
 							o.rets = o.rets[0].Tuple
 						}
+						u.returnAsserts(o, x)
 					}
 				}
 				return outs
@@ -784,6 +786,7 @@ func (u *Unit) execReturn(st *State, x *ast.ReturnStmt) []*State {
 							for i := range o.rets {
 								o.rets[i] = u.convertForAssign(o, o.rets[i], u.sig.Results().At(i).Type())
 							}
+							u.returnAsserts(o, x)
 						}
 					}
 					return outs
@@ -797,6 +800,7 @@ func (u *Unit) execReturn(st *State, x *ast.ReturnStmt) []*State {
 			st.rets = append(st.rets, &rv)
 		}
 	}
+	u.returnAsserts(st, x)
 	st.trace = append(st.trace, fmt.Sprintf("%s return.%d", u.pos(x), st.retSite))
 	st.ctl = "return"
 	return []*State{st}
